@@ -6,7 +6,7 @@ import ast
 from sa.report import Cx
 from sa.walker import WalkOptions
 from sa.terms import (Sym, Attr, Sub, App, Fresh, Const, IfT, AIs, ATruthy, FNot, f_not, implies, term_symbols, compare)
-from .common import CORE, check_atomic, check_keyed_insert, check_keyed_delete, strip_versions
+from .common import CORE, super_init_bindings, const_default, check_atomic, check_keyed_insert, check_keyed_delete, strip_versions
 
 PID = 'C20'
 EXPLANATION = (
@@ -164,6 +164,43 @@ def run(cx: Cx):
                 cx.inconclusive('R-DYN', 'Agent.__init__ default tag', f"default tag expression {default!r} not recognised",
                                 where=where, function=ainit.qualname)
     cx.floor('Agent.__init__ paths', n, 1)
+
+    # ------------------------------------------------------------ clause 3b: "no explicit tag" reaches Agent.__init__ as None
+    # Every agent class of the package (environments are agents) forwards its constructor arguments through
+    # super().__init__; the class default is consulted only when Agent.__init__ sees tag None, so a subclass constructor may
+    # pass nothing, None, or its own parameter whose default is None - any other value silently overrides the class default.
+    carrier = {ainit.qualname: 'tag'} if tagp is not None else {}
+    order = [ci for ci in prog.classes.values() if ci != agent and agent in prog.mro(ci)]
+    order.sort(key=lambda ci: len(prog.mro(ci)))
+    nfw = 0
+    for ci in order:
+        own = ci.methods.get('__init__')
+        if not own:
+            continue
+        own = own[0]
+        r = super_init_bindings(cx, own)
+        if r is None:
+            continue
+        callee, b, ev = r
+        cp = carrier.get(callee.qualname)
+        if cp is None:
+            continue
+        v = b.get(cp)
+        if v is None:
+            v = const_default(cx, callee, cp)
+        v = strip_versions(v) if v is not None else None
+        where = cx.where(own, ev.line)
+        nfw += 1
+        if v == Const(None):
+            cx.ok('R-NONE', f"{ci.name}: passes no tag to its parent constructor", where=where, function=own.qualname)
+        elif isinstance(v, Sym) and v.name in own.params + own.kwonly and const_default(cx, own, v.name) == Const(None):
+            carrier[own.qualname] = v.name
+            cx.ok('R-NONE', f"{ci.name}: forwards its own parameter `{v.name}` (default None)", where=where, function=own.qualname)
+        else:
+            cx.violation('R-NONE', own.qualname, 'absent-tag-forwarded-as-None',
+                         f"{own.qualname} passes {v!r} as the tag of its parent constructor: an instance created without an "
+                         f"explicit tag never receives the current default tag of its class", where=where)
+    cx.floor('agent subclasses forwarding to Agent.__init__', nfw, 1)
 
     # ------------------------------------------------------------ clause 4: atomic + keyed discipline, both APIs
     addc = cx.fn(META + '.add_class_component')
